@@ -43,7 +43,12 @@ def _lst(x):
 
 
 def _array(start, step, n, with_attr, two_d=False):
-    xs = [start + i * step for i in range(n)]
+    if h.P("axis_style") == "arange":
+        # coordinates as np.arange / create_range_dim store them: start + i*delta, delta = (start+step) - start
+        delta = (start + step) - start
+        xs = [start + i * delta for i in range(n)]
+    else:
+        xs = [start + i * step for i in range(n)]
     attrs = {"step": step} if with_attr else {}
     coord = XR.Variable("time", NP.array(xs), attrs)
     if two_d:
@@ -214,7 +219,10 @@ def kx_extend_width(params, timeout):
     n, width, position = params["n"], params["width"], params["position"]
     extra = width - n
     expected = {"start": [extra], "end": [extra], "center": [extra // 2, extra - extra // 2]}[position]
-    start, step = kx.var("start"), kx.var("step")
+    import math
+
+    # sample assignment (dyadic, so exact in doubles too): tells what exact arithmetic would produce
+    start, step = kx.var("start", 0.5), kx.var("step", 0.25)
     xs = [start + i * step for i in range(n)]
     records = []
 
@@ -222,16 +230,30 @@ def kx_extend_width(params, timeout):
         pass
 
     def arange(a, b=None, s=1, dtype=None):
-        k = expected[len(records)] if len(records) < len(expected) else 0
+        if b is None:
+            a, b = 0, a
+        if all(isinstance(x, int) and not isinstance(x, bool) for x in (a, b, s)):
+            r = list(range(a, b, s))
+            return npl.ndarray(r, (len(r),), None)
+        # float range: exact arithmetic gives ceil((b - a)/s) elements; whether doubles agree is the query
+        k = max(0, math.ceil((kx.shadow(b) - kx.shadow(a)) / kx.shadow(s)))
         records.append((a, b, s, k))
         return npl.ndarray([a + i * s for i in range(k)], (k,), None)
 
-    def concatenate(parts):
-        raise Stop()
+    reindexed = []
 
-    fake_np = types.SimpleNamespace(arange=arange, concatenate=concatenate, float64=npl.float64, ndarray=npl.ndarray)
+    class RecArr(xrl.DataArray):
+        def reindex(self, indexers=None, fill_value=None, **kw):
+            reindexed.append(dict(indexers or {}, **kw))
+            raise Stop()
+
+    fake_np = types.SimpleNamespace(arange=arange, concatenate=npl.concatenate, float64=npl.float64,
+                                    ndarray=npl.ndarray)
+    if params.get("axis_style") == "arange":
+        delta = (start + step) - start
+        xs = [start + i * delta for i in range(n)]
     coord = xrl.Variable("time", npl.ndarray(xs, (n,), None), {"step": step})
-    arr = xrl.DataArray(npl.ndarray([0.0] * n, (n,), None), dims=("time",), coords={"time": coord})
+    arr = RecArr(npl.ndarray([0.0] * n, (n,), None), dims=("time",), coords={"time": coord})
     saved = (O.np, O.xr, D.np, D.xr)
     O.np, D.np = fake_np, fake_np
     O.xr, D.xr = xrl.xarray, xrl.xarray
@@ -242,25 +264,42 @@ def kx_extend_width(params, timeout):
             pass
     finally:
         O.np, O.xr, D.np, D.xr = saved
-    if not records:
-        return {"status": "error", "message": "kernel not recognised: extend_dim_width made no range-generation call"}
+    if not reindexed:
+        return {"status": "error", "message": "kernel not recognised: extend_dim_width did not reindex"}
     wrong = []
     for (a, b, s, k) in records:
-        if all(isinstance(x, int) for x in (a, b, s)):
-            if len(range(a, b, s)) != k:
-                wrong.append(z3.BoolVal(True))
-            continue
         wrong.append(z3.Not(z3.fpEQ(kx.arange_len(a, b, s), z3.FPVal(float(k), kx.F64))))
-    if not wrong:
-        return {"status": "confirmed", "queries": 0, "note": "coordinates are generated by integer count"}
+    n_labels = len(reindexed[0]["time"])
+    if n_labels != width:
+        # already in exact arithmetic (sample start=0.5, step=0.25) the result has another size
+        return {"status": "refuted", "replay_fn": "ob_width", "args": [[0.5, 0.25, 0.5], {}], "queries": 0,
+                "message": "extend_dim_width builds %d coordinates for width %d" % (n_labels, width),
+                "clause": "result does not have exactly `width` samples"}
+    # every original sample must keep its original coordinate bit for bit (reindex matches labels exactly)
+    moved = []
+    if reindexed:
+        new_labels = reindexed[0]["time"]
+        new_labels = new_labels.tolist() if hasattr(new_labels, "tolist") else list(new_labels)
+        before = {"start": 0, "end": extra, "center": extra // 2}[position]
+        if len(new_labels) == width:
+            for i in range(n):
+                a, b = new_labels[before + i], xs[i]
+                if a is b or (isinstance(a, kx.ZF) and isinstance(b, kx.ZF) and a.e.eq(b.e)):
+                    continue
+                moved.append(z3.Not(z3.fpEQ(kx.lift(a), kx.lift(b))))
+    if not wrong and not moved:
+        return {"status": "confirmed", "queries": 0,
+                "note": "coordinates are generated by integer count and the original labels are passed through"}
+    wrong = wrong + moved
     cons = [kx.finite_between(start, -1000.0, 1000.0), kx.finite_between(step, 0.001, 1000.0), z3.Or(*wrong)]
     r = kx.solve(cons, timeout, {"start": start, "step": step})
     res = {"queries": 1, "solve_s": r["solve_s"], "paths": 1}
     if r["status"] == "sat":
         m = r["model"]
-        res.update(status="refuted", replay_fn="ob_width", args=[[m["start"], m["step"], 0.0], {}],
-                   message="z3 model: numpy's float range yields another count for start=%r step=%r" % (m["start"], m["step"]),
-                   clause="result does not have exactly `width` samples")
+        res.update(status="refuted", replay_fn="ob_width", args=[[m["start"], m["step"], 0.5], {}],
+                   message="z3 model: float range generation yields another count, or an original coordinate is "
+                   "regenerated with another bit pattern, for start=%r step=%r" % (m["start"], m["step"]),
+                   clause="result does not have exactly `width` samples / original sample lost")
     elif r["status"] == "unsat":
         res.update(status="confirmed")
     else:
@@ -301,9 +340,10 @@ def plan():
                     obs.append(Ob("width-n%d-w%d-%s-%s" % (n, width, position, "attr" if attr else "est"), ob_width,
                                   "real", 600, dict(n=n, width=width, position=position, with_attr=attr),
                                   q if quick else ("thorough",), twins=("ok",) if width >= 1 else ("rejected",)))
-    for (n, width, position) in ((1, 8, "start"), (1, 4, "end"), (1, 12, "center"), (2, 9, "start")):
-        obs.append(Ob("ieee-width-n%d-w%d-%s" % (n, width, position), kx_extend_width, "kx", 120,
-                      dict(n=n, width=width, position=position, with_attr=True), q, kind="py"))
+    for (n, width, position) in ((1, 8, "start"), (1, 4, "end"), (1, 12, "center"), (2, 9, "start"),
+                                 (3, 6, "center"), (4, 7, "end"), (4, 6, "start")):
+        obs.append(Ob("ieee-width-n%d-w%d-%s" % (n, width, position), kx_extend_width, "kx", 180,
+                      dict(n=n, width=width, position=position, with_attr=True, axis_style="arange"), q, kind="py"))
     return obs
 
 
